@@ -578,7 +578,11 @@ S_FAMILY = [
     ["C", [["lst", ["LC", [["LC", [["C", [["a", False]]]]], ["C", [["a", 1]]]]]]]],
     ["C", [["a", 0], ["b", ["C", [["a", 1]]]]]],
 ]
-S_PATTERNS = ["a", "ab.*", "^$", "x", "a$", ".*", "[ab]", "n"]
+# keys spelled like the containers' own methods (public and private), at top level, in a nested container and in a listed one:
+# an entry never stands in for a method (search must still descend and still report it)
+for _nm in SHADOW_NAMES + ["_search", "__class__"]:
+    S_FAMILY.append(["C", [["a", 1], ["sub", ["C", [["x", "v"], [_nm, "s"]]]], ["lst", ["LC", [["C", [[_nm, 4], ["a", 5]]]]]], [_nm, 2], ["z", 3]]])
+S_PATTERNS = ["a", "ab.*", "^$", "x", "a$", ".*", "[ab]", "n", "_?search.*"]
 
 
 def ref_search_all(ref, pat):
